@@ -39,6 +39,7 @@ type childSpec struct {
 	Namespace string     `json:"namespace"`
 	Limiter   bool       `json:"limiter"`
 	Blobs     []blobSpec `json:"blobs"`
+	PeerID    string     `json:"peer_id"`
 }
 
 type child struct {
@@ -47,6 +48,7 @@ type child struct {
 	lines      chan string
 	stderrPath string
 	port       int
+	peerID     string
 	pid        int
 	exited     chan struct{}
 	mu         sync.Mutex
@@ -108,6 +110,7 @@ func startChild(bin, dir string, spec childSpec) (*child, error) {
 			return nil, fmt.Errorf("bad ready line %q", l)
 		}
 		c.port = int(m["port"].(float64))
+		c.peerID, _ = m["peer_id"].(string)
 	case <-time.After(60 * time.Second):
 		c.kill()
 		return nil, errors.New("child start watchdog")
